@@ -206,6 +206,10 @@ func (g *gen) readSizes(bs, content int) []int {
 		if s <= 0 {
 			s = 1
 		}
+		// keep the number of Read calls per run bounded
+		if m := content / 4000; s < m {
+			s = m
+		}
 		out = append(out, s)
 	}
 	return out
@@ -444,6 +448,7 @@ func (g *gen) determinism(p *Plan) {
 	p.Phases = [][]string{{"W0"}}
 	nv := g.r.Range(1, 3)
 	var phase []string
+	same := []int{0}
 	for v := 0; v < nv; v++ {
 		vo := o
 		vo.Conc = g.r.PickInt(1, 2, 3, 4, 8, 0)
@@ -456,6 +461,7 @@ func (g *gen) determinism(p *Plan) {
 		}
 		w.Ops = append(w.Ops, WOp{Op: "close"})
 		p.Writers = append(p.Writers, w)
+		same = append(same, len(p.Writers)-1)
 		name := fmt.Sprintf("W%d", len(p.Writers)-1)
 		if g.r.Chance(1, 2) {
 			phase = append(phase, name)
@@ -499,6 +505,7 @@ func (g *gen) determinism(p *Plan) {
 	if len(phase) > 0 {
 		p.Phases = append(p.Phases, phase)
 	}
+	p.Same = [][]int{same}
 }
 
 func minInt(a, b int) int {
